@@ -404,6 +404,9 @@ class DrvDomain(Domain):
             if op == "*":
                 return a * b
             if op == "/":
+                if b == 0:
+                    self.event("nan", ir.locstr(e), "floating-point division %s/0 of two constants: the result (NaN or inf) is reported as a statistic" % a)
+                    return S("NaN")
                 return a / b
             if op in ("<", "<=", ">", ">=", "==", "!="):
                 return {"<": a < b, "<=": a <= b, ">": a > b, ">=": a >= b, "==": a == b, "!=": a != b}[op]
